@@ -78,6 +78,14 @@ def runOp05 (name params : String) (vals : List Val) : Val :=
   | "detach", [.qb q] => qbDetach q
   | "clone", [.qb q] => qbClone q
   | "to", [.qb q] => qbToDtype q (match i 0 with | 32 => f32 | 16 => f16 | _ => bf16)
+  -- a tensor factor is a scalar for quanto only when it is 0-dimensional (`is_scalar`); any other
+  -- tensor (even with a single element) goes through the fallback: float result = oracle
+  | "mul", [.qb q, .plain _ t, .plain F o] =>
+      if t.shape == [] then (match t.get 0 with | .fin k => qbMulScalar q k | _ => .fail .other) else .plain F o
+  | "mul", [.plain _ t, .qb q, .plain F o] =>
+      if t.shape == [] then (match t.get 0 with | .fin k => qbMulScalar q k | _ => .fail .other) else .plain F o
+  | "div", [.qb q, .plain _ t, .plain F o] =>
+      if t.shape == [] then (match t.get 0 with | .fin k => qbDivScalar q k | _ => .fail .other) else .plain F o
   | "mul", [.qb q, .scalar k] => qbMulScalar q k
   | "mul", [.scalar k, .qb q] => qbMulScalar q k
   | "div", [.qb q, .scalar k] => qbDivScalar q k
